@@ -193,19 +193,19 @@ def describe(obj):
 # or a Replayer(container="numpy")).  With NumPy containers every array that was handed over is kept together with a
 # private copy, and after each call the harness verifies that the library did not write into the caller's arrays.
 _CONTAINER = [os.environ.get("VERIF_CONTAINER", "jax")]
-_HANDED = []
+_HANDED = [[]]          # the list of the Replayer whose step is being executed (behaviours are replayed interleaved)
 
 
 def A(x):
     a = np.array(x, dtype=float)
     if _CONTAINER[0] == "numpy":
-        _HANDED.append((a, a.copy()))
+        _HANDED[0].append((a, a.copy()))
         return a
     return jnp.asarray(a)
 
 
 def check_arguments_untouched():
-    for a, c in _HANDED:
+    for a, c in _HANDED[0]:
         if not np.array_equal(a, c):
             raise Mismatch("argument.mutated", a.tolist(), c.tolist(), "the call wrote into an array owned by the caller")
 
@@ -522,10 +522,11 @@ class Replayer:
         """Generator form of run(): yields after every step (so that two behaviours can be replayed INTERLEAVED by two
         Replayers in one process); the generator's return value is run()'s result."""
         self.heap, self.expect, self.flags = {}, {}, {}
-        del _HANDED[:]
+        handed = []
         for si, st in enumerate(behaviour):
             if si:
                 yield si
+            _HANDED[0] = handed
             self.extra_ctx = {}
             ctx = self.context(st)
             try:
@@ -540,6 +541,12 @@ class Replayer:
                     self.calls += 1
                     if exp_raise and type(e).__name__ == exp_raise:
                         continue  # the documented refusal
+                    if _CONTAINER[0] == "numpy":
+                        # The library is typed for jax arrays; an operation that does not accept objects built from NumPy
+                        # arrays (e.g. update() needs `.at`) is outside the properties.  The behaviour ends here; what was
+                        # observed up to this step (values, untouched arguments) has been checked.
+                        self.count("numpy_container_unsupported_call")
+                        return None
                     # the code raised where the specification defines a result
                     raise Mismatch("raises", f"{type(e).__name__}: {e}"[:400], exp_raise or "no exception",
                                    "exception in a call the specification enables")
